@@ -111,6 +111,22 @@ pub fn gen(tier: &str, seed: u64, emit: &mut dyn FnMut(String)) {
         chunks.push(cur);
         emit(dmx_case(0, "", &chunks));
     }
+    // 66000 damaged PAT sections in a row, each with another version_number (beyond any 16-bit counter of failures)
+    {
+        let mut m = Mux::new();
+        let good = section(0, 1, 0, true, &pat_body(&[(1, 0x100)], &mut rng));
+        m.psi(0, &good, 0, 0, &mut rng);
+        let mut chunks: Vec<Vec<u8>> = vec![m.bytes()]; m.pkts.clear();
+        let mut cur: Vec<u8> = vec![];
+        for k in 0..66000usize {
+            let mut bad = good.clone(); bad[5] = (bad[5] & 0xc1) | ((((k * 3 + 7) & 31) as u8) << 1); bad[9] ^= 0x10;
+            let mut pl = vec![0u8]; pl.extend_from_slice(&bad); pl.resize(184, 0xff);
+            cur.extend(ts_packet(0, true, (k & 15) as u8, false, 0, None, &pl));
+            if cur.len() >= 188 * 48 { chunks.push(std::mem::take(&mut cur)); }
+        }
+        chunks.push(cur);
+        emit(dmx_case(0, "", &chunks));
+    }
     // the repository's own fuzz corpus
     if let Ok(rd) = std::fs::read_dir("/repo/fuzz/corpus/fuzz_target_1") {
         let mut files: Vec<_> = rd.filter_map(|e| e.ok()).map(|e| e.path()).collect(); files.sort();
